@@ -111,18 +111,29 @@ func H_C09_requestReusesActiveId() {
 
 // H_C09_requestReusesStoredId: the id of a finished (or not yet restored) swap that only exists in
 // the store is not accepted for a new swap either.
+// zzverif:also C15
 func H_C09_requestReusesStoredId() {
 	sc, _ := vC09Scenario()
 	// the swap is known to the store only (finished earlier, or the process restarted and has not
 	// restored it yet)
 	delete(sc.svc.activeSwaps, sc.id)
+	// "finished" includes every terminal state: the stored record may say cancelled or claimed
+	if k := zzverif.Choice("stored.terminal", 5); k > 0 {
+		fin := []StateType{State_SwapCanceled, State_ClaimedPreimage, State_ClaimedCoop, State_ClaimedCsv}[k-1]
+		sc.env.store.recs[sc.id].Current = fin
+		sc.env.store.recs[sc.id].Data.FSMState = fin
+	}
 	recBefore := sc.env.store.recs[sc.id]
+	stateBefore := recBefore.Current
 	sender := zzverif.Str("sender")
 	sc.vSendMsg(stMsgRequest, sender)
 	rec := sc.env.store.recs[sc.id]
-	zzverif.Assert(rec == recBefore, "C09.stored_id_record_untouched")
+	zzverif.Assert(rec == recBefore && rec.Current == stateBefore, "C09.stored_id_record_untouched")
 	_, aerr := sc.svc.GetActiveSwap(sc.id)
 	zzverif.Assert(aerr != nil, "C09.stored_id_not_reactivated")
+	// C15's view: a swap the node finished (cancelled on recovery, claimed) is never started again by a
+	// re-sent request - nothing is paid or broadcast for it a second time
+	zzverif.Assert(aerr != nil && len(sc.env.w.pays) == 0 && len(sc.env.w.feePays) == 0 && sc.env.w.openings == 0, "C15.finished_swap_is_not_started_again_by_a_request")
 }
 
 // H_C09_acceptedEventsAreListed: a message from the counterparty changes the swap only if the state
